@@ -64,7 +64,7 @@ func runPlan(cfg *config, script []input, p plan, idx int) (*caseRun, string) {
 		if i == len(p.Kills) && i > 0 && p.Mode == modeOther {
 			h := cfg.H0 + types.Height(c.completedCommits())
 			rng := lib.Rng("C13/continuation", uint64(idx)<<20^p.Cont)
-			alt := genScript(rng, cfg, h, 1+rng.IntN(2))
+			alt := genScript(rng, cfg, h, 1+rng.IntN(2), false)
 			inputs = make([]idxInput, len(alt))
 			for j, in := range alt {
 				inputs[j] = idxInput{1<<20 + j, in}
@@ -156,6 +156,12 @@ func checkRun(c *caseRun, expectedAtStart [][]walItem) []finding {
 			if e.Kind == "height-start-logged-under-later-height" {
 				out = append(out, finding{"height-start-logged-under-later-height",
 					fmt.Sprintf("incarnation %d effect %d (%s)", inc.idx, e.N, e.Key),
+					map[string]any{"effects": tail(effectKeys(inc.effects), 14)}})
+				break
+			}
+			if strings.HasPrefix(e.Kind, "unlogged-stale-timeout-triggers:") {
+				out = append(out, finding{e.Kind,
+					fmt.Sprintf("incarnation %d effect %d (%s): the state machine treated the timeout as stale (no log record) yet produced this effect while handling it", inc.idx, e.N, e.Key),
 					map[string]any{"effects": tail(effectKeys(inc.effects), 14)}})
 				break
 			}
@@ -424,11 +430,11 @@ func compareTwin(twin, got summary) []finding {
 func makeConfig(idx int) *config {
 	rng := lib.Rng("C13/config", uint64(idx))
 	cfg := &config{
-		Role:   []string{roleProposer, roleNonProposer}[idx%2],
-		App:    []string{appDet, appFresh}[(idx/2)%2],
-		Family: []string{famMessages, famTimeouts}[(idx/4)%2],
-		H0:     types.Height(1 + rng.IntN(4)),
-		Me:     rng.IntN(4),
+		Role:     []string{roleProposer, roleNonProposer}[idx%2],
+		App:      []string{appDet, appFresh}[(idx/2)%2],
+		Family:   []string{famMessages, famTimeouts}[(idx/4)%2],
+		H0:       types.Height(1 + rng.IntN(4)),
+		Me:       rng.IntN(4),
 		PropSeed: rng.Uint64(), FireSeed: rng.Uint64(),
 	}
 	if rng.IntN(4) == 0 {
@@ -446,7 +452,7 @@ func twinComparable(cfg *config) bool { return cfg.App == appDet || cfg.Role == 
 func runCase(t *testing.T, r *lib.Run, idx int) {
 	cfg := makeConfig(idx)
 	rng := lib.Rng("C13/script", uint64(idx))
-	script := genScript(rng, cfg, cfg.H0, pick(rng, 1, 2, 2, 3))
+	script := genScript(rng, cfg, cfg.H0, pick(rng, 1, 2, 2, 3), true)
 	combo := fmt.Sprintf("%s/%s/%s", cfg.Role, cfg.App, cfg.Family)
 
 	var repMu sync.Mutex
